@@ -16,7 +16,7 @@ def rand_operator(rng: Any, ctx: Ctx, *, atoms: float = 0.4, lazy_inverse: bool 
     if index is not None:
         # the first cases of every shard go through one operator of every class in turn
         slot = index // max(1, ctx.nshards)
-        if slot < len(gen.CLASS_RECIPES):
+        if slot < len(gen.CLASS_RECIPES) and (lazy_inverse or gen.CLASS_RECIPES[slot] != 'InverseOperator'):
             op = generate(lambda: gen.operator_of_class(rng, gen.CLASS_RECIPES[slot]))
             if op is not None and gen.well_typed(op) is None:
                 return op.in_structure(), op
